@@ -228,7 +228,8 @@ def main(tier, replay=None):
         if rt == 0:
             continue
         scale = 1 + abs(pmt) * 50 + abs(fv) * 3
-        out = values.outcome(p.parse('(' + pvf + ')/%r' % (scale * (1 + abs(rt)) ** n)))
+        p.set_variable('scale', scale * (1 + abs(rt)) ** n)      # the residual is judged relative to the size of the terms
+        out = values.outcome(p.parse('(' + pvf + ')/scale'))
         obs.append(got_want(out, 0, env, pvf, 'pv-annuity'))
         obs.append(got_want(values.outcome(p.parse(pv0)), 0, env, pv0, 'pv-zero-rate'))
         if fv == 0 and ty == 0:
